@@ -80,11 +80,26 @@ def oracle_machine(ctx, sk, ws):
 
 
 def machine_view(ctx, m):
-    "oracle view of an arbitrary (output) automaton / transducer of the real code"
+    """oracle view of an arbitrary (output) automaton / transducer of the real code.  States are renamed to
+    small integers once (by equality): determinised machines have frozendict states holding symbolic weights,
+    and every dictionary look-up on such a key costs symbolic comparisons."""
     T = ctx.D.term
-    arcs = [(i, a, j, T(w)) for i, a, j, w in m.arcs()]
-    start = {q: T(w) for q, w in m.start.items()}
-    stop = {q: T(w) for q, w in m.stop.items()}
+    reps = []
+
+    def name(q):
+        for k, r in enumerate(reps):
+            if r is q:
+                return k
+        simple = isinstance(q, (int, str, bytes)) or (isinstance(q, tuple) and all(isinstance(x, (int, str, bytes, tuple)) for x in q))
+        for k, r in enumerate(reps):
+            if (simple and isinstance(r, type(q)) and r == q) or (not simple and not isinstance(r, (int, str, bytes)) and r == q):
+                return k
+        reps.append(q)
+        return len(reps) - 1
+
+    arcs = [(name(i), a, name(j), T(w)) for i, a, j, w in m.arcs()]
+    start = {name(q): T(w) for q, w in m.start.items()}
+    stop = {name(q): T(w) for q, w in m.stop.items()}
     return arcs, start, stop
 
 
